@@ -9,9 +9,9 @@ For every valid stream and ANY bytes that follow it:
   follows, and the count is the stream length (this is where the range decoder's 5-byte initialisation, the
   encoder's 5-byte flush and the final normalisation have to match – `rc_roundtrip`);
 * `xz_single_stream_exact` – the single-stream XZ reader stops right after the 12-byte footer.
-The same statements for raw LZMA2 are checked by correspondence (chunk reads are exact-length by
-construction of the model and the reader stops at the 0x00 control byte); the LZMA2 framing theorem is a
-growth item.  The real readers are run on streams followed by nothing / zeros / random bytes / 0xFF /
+* `lzma2_exact` – raw LZMA2: for every valid sequence of writer events the chunk decoder consumes exactly the
+  encoder's bytes (up to and including the 0x00 end byte) whatever follows.
+The real readers are run on streams followed by nothing / zeros / random bytes / 0xFF /
 another stream with three buffer schedules; `consumed` must equal the stream length.
 -/
 namespace LzmaVerif.Props.C16
@@ -54,5 +54,15 @@ theorem xz_single_stream_exact (c : Xz.Check) (fs : List Xz.Filter) (hfs : Xz.Fi
     Xz.decode false (Xz.streamBytes c fs blocks ++ rest) cap
       = .ok (blocks.map (·.2)).flatten (Xz.streamBytes c fs blocks).length (blocks.map (Xz.blkOf fs)).reverse :=
   Xz.xz_roundtrip_blocks c fs hfs blocks hb hsz rest cap hcap
+
+theorem lzma2_exact (dict : Nat) (preset : Array Nat) (pb : Nat) (hpb : pb ≤ 224)
+    (hlclp : (paramsOfProps pb).lc + (paramsOfProps pb).lp ≤ 4)
+    (chunks : List Lzma2.Chunk) (data : List Nat)
+    (hok : Lzma2.ChunksOk pb chunks (Lzma2.initW dict preset pb) data) :
+    ∃ bytes, Lzma2.encodeChunks pb chunks (Lzma2.initW dict preset pb) [] = some bytes ∧
+      ∀ (rest : List Nat) (cap : Nat), data.length ≤ cap →
+        Lzma2.decode dict preset (bytes ++ rest) cap
+          = .ok { out := data.toArray, consumed := bytes.length, chunks := chunks } :=
+  Props.C01.lzma2_roundtrip dict preset pb hpb hlclp chunks data hok
 
 end LzmaVerif.Props.C16
